@@ -34,6 +34,11 @@ func runC04(c *core.Ctx) {
 	var fns []*ssa.Function
 	if f := anchorM(c, pkg, "patriciaMerkleTrie", "VerifyProof"); f != nil {
 		fns = append(fns, f)
+		if len(f.Params) >= 3 {
+			if h, _ := c04Delegate(f, f.Params[2]); h != nil {
+				fns = append(fns, h)
+			}
+		}
 	}
 	if f := anchorF(c, pkg, "decodeNode"); f != nil {
 		fns = append(fns, f)
@@ -229,6 +234,12 @@ func keyStepFacts(fn *ssa.Function) []core.Fact {
 			if !f.Mentions("p1") || !(strings.Contains(f.String(), "recv.") || f.Mentions("len(p1)")) {
 				continue
 			}
+			// whether the child selected by the key's nibble exists is not a comparison of the key with the node's
+			// content (the walk that verifies a proof has no child to test, only a hash that the next element must
+			// match); where such a test stands relative to the key step is a matter of statement order
+			if f.A == "nil" || f.B == "nil" {
+				continue
+			}
 			if !seen[f.String()] {
 				seen[f.String()] = true
 				out = append(out, f)
@@ -380,6 +391,12 @@ func c04RefusalsHaveAProofReason(c *core.Ctx) {
 		return
 	}
 	proof := ssa.Value(fn.Params[2])
+	// the walk may live in a method VerifyProof hands the proof to and whose answer it returns
+	// (`return tr.verifyFromHash(root, hexKey, proof)`): the refusals judged are then that method's
+	if h, hp := c04Delegate(fn, proof); h != nil {
+		fn, proof = h, hp
+		c.Analysed(fname(h))
+	}
 	n := 0
 	for _, r := range core.Returns(fn) {
 		b, isC := core.ConstBool(core.RetOperand(r, 0))
@@ -446,4 +463,29 @@ func c04RefusalsHaveAProofReason(c *core.Ctx) {
 			"VerifyProof answers false on a condition that is not a nil/empty entry, a hash mismatch or the end of the proof: a relation that genuine proofs need not satisfy (e.g. number of entries vs key length) makes proofs of present keys fail")
 	}
 	c.Floor("C04/refusals-have-a-proof-reason", 3)
+}
+
+// c04Delegate: fn returns the results of one call of a function of its package to which it hands v
+// unchanged; that function and the parameter v arrives as.
+func c04Delegate(fn *ssa.Function, v ssa.Value) (*ssa.Function, ssa.Value) {
+	for _, r := range core.Returns(fn) {
+		if len(r.Results) == 0 {
+			continue
+		}
+		ex, ok := core.RetOperand(r, 0).(*ssa.Extract)
+		if !ok {
+			continue
+		}
+		call, ok := ex.Tuple.(*ssa.Call)
+		if !ok || call.Call.StaticCallee() == nil || call.Call.StaticCallee().Blocks == nil || call.Call.StaticCallee().Pkg != fn.Pkg || call.Call.StaticCallee() == fn {
+			continue
+		}
+		h := call.Call.StaticCallee()
+		for i, p := range h.Params {
+			if i < len(call.Call.Args) && call.Call.Args[i] == v {
+				return h, p
+			}
+		}
+	}
+	return nil, nil
 }
